@@ -11,6 +11,7 @@ Helper lemmas for C15.
   invariant at the fuel below (`GoodAll fuel`).
 -/
 import PiciModel.Model.Eval
+import PiciModel.Lemmas.InputStdin
 
 namespace Pici
 
@@ -267,6 +268,11 @@ theorem arith_keeps (src : Name) (op) (args : List Val) (st : St) : Keeps' st (a
   splits
   all_goals exact Keeps'.refl _
 
+theorem inputStdin_keeps (n : Nat) (st : St) : Keeps' st (inputStdin n st).2 := by
+  obtain ⟨buf, chunks, inbox, h⟩ := inputStdin_frame n st
+  rw [h]
+  exact Keeps'.of_eq rfl rfl
+
 theorem compare_keeps (src : Name) (op) (args : List Val) (st : St) : Keeps' st (compare src op args st).2 := by
   unfold compare arity2 asNumber
   splits
@@ -301,7 +307,7 @@ theorem simpleNative_keeps (id : NativeId) (args : List Val) (d : Nat) (st : St)
     | exact (St.keeps_defineGlobal ..).trans (St.keeps_send ..)
     | exact St.keeps_defineGlobal ..
     | exact (St.keeps_undefineGlobal ..).trans (St.keeps_send ..)
-    | (have hrl := St.keeps_readLine st; simp only [*] at hrl; exact hrl)
+    | exact inputStdin_keeps ..
 
 theorem pollDebugger_keeps (st : St) : Keeps' st (pollDebugger st).2 := by
   unfold pollDebugger
@@ -458,6 +464,7 @@ theorem simpleNative_noPanic (id : NativeId) (args : List Val) (d : Nat) (st : S
     | exact exportLoop_noPanic _ _
     | exact readNative_noPanic _ _
     | exact printNative_noPanic _ _
+    | exact inputStdin_noCrash _ _ _
     | simp
 
 
